@@ -266,7 +266,7 @@ def run_job(job):
 def main(chk):
     quick = chk.tier == "quick"
     jobs = []
-    n_random = 64 if quick else 1600
+    n_random = 240 if quick else 2400
     for i in range(n_random):
         jobs.append({"id": "rnd%d" % i, "kind": "random", "seed": job_seed(chk.seed, "C01", i),
                      "queries": 24 if quick else 30, "max_entries": 30 if quick else 60})
